@@ -81,3 +81,121 @@ theorem C03_opn_realize (cfg : Cfg) (n : Str) (w : Bool) (a : Attrs) (sc : Bool)
     (Piece.opn n w a sc).realize cfg = '<' :: n ++ renderAttrs cfg a ++ (if sc then ['/', '>'] else ['>']) := rfl
 
 end HtmlVerif.C03
+
+namespace HtmlVerif.C03
+open HtmlVerif
+
+theorem opensKids_eq_visible (ks : Nodes) : opensKids ks = ks.visible.flatMap opens := by
+  induction ks using Nodes.rec (motive_1 := fun _ => True) with
+  | nil => simp [opensKids, Nodes.visible]
+  | cons h t _ ih => cases h <;> simp_all [opensKids, Nodes.visible, Node.isMeta, opens]
+  | _ => trivial
+
+@[simp] theorem opn?_opn (n : Str) (w : Bool) (a : Attrs) (sc : Bool) : Piece.opn? (.opn n w a sc) = some (n, a) := rfl
+@[simp] theorem opn?_cls (n : Str) (w : Bool) : Piece.opn? (.cls n w) = none := rfl
+@[simp] theorem opn?_ws (s : Str) : Piece.opn? (.ws s) = none := rfl
+@[simp] theorem opn?_txt (s : Str) : Piece.opn? (.txt s) = none := rfl
+@[simp] theorem opn?_raw (s : Str) : Piece.opn? (.raw s) = none := rfl
+@[simp] theorem opn?_textP (b : Bool) (s : Str) : Piece.opn? (textP b s) = none := by unfold textP; split <;> rfl
+@[simp] theorem filterMap_opn_wsP (s : Str) : (wsP s).filterMap Piece.opn? = [] := by
+  unfold wsP; split <;> simp [List.filterMap_cons]
+
+mutual
+  /-- every attribute position: each tag the renderer reaches — at any depth, on every path — writes exactly
+      one opening-tag piece carrying its own stored attributes, in document order; by `C03_opn_realize` and
+      `C03_writer` that piece is `<name` + one ` k="emit v"` per attribute + `>` -/
+  theorem C03_every_tag (cfg : Cfg) (n : Node) (i : Nat) (e : Str) :
+      (n.pieces cfg i e).filterMap Piece.opn? = opens n := by
+    cases n with
+    | tag name ws attrs kids =>
+      have hk := C03_every_tag_kids cfg kids (i + 1) e true ws (!cfg.noesc.contains name)
+      have hvis := opensKids_eq_visible kids
+      simp only [List.contains_eq_mem] at hk
+      simp only [Node.pieces, opens]
+      by_cases h0 : kids.visible.isEmpty = true
+      · have hnil : kids.visible = [] := by simpa using h0
+        rw [hvis, hnil]
+        by_cases hv : name ∈ cfg.void <;> simp [h0, hv, List.filterMap_cons]
+      · simp only [h0]
+        cases h1 : inlineChild? kids.visible with
+        | some c =>
+          rw [hvis]
+          rcases inlineChild?_some h1 with ⟨hc, hvv⟩ | ⟨hc, hvv⟩ <;> simp [hvv, opens, List.filterMap_cons]
+        | none => cases ws <;> simp [hk, List.filterMap_cons]
+    | _ => simp [Node.pieces, opens]
+  theorem C03_every_tag_kids (cfg : Cfg) (ks : Nodes) (i : Nat) (e : Str) (first prevWs esc : Bool) :
+      (ks.piecesKids cfg i e first prevWs esc).filterMap Piece.opn? = opensKids ks := by
+    cases ks with
+    | nil => simp [Nodes.piecesKids, opensKids]
+    | cons h t =>
+      have ht := C03_every_tag_kids cfg t
+      cases h with
+      | tag n w a k =>
+        have hh := C03_every_tag cfg (.tag n w a k)
+        simp only [Nodes.piecesKids, opensKids]
+        cases first <;> cases prevWs <;> cases w <;> simp [ht, hh, List.filterMap_cons]
+      | _ =>
+        simp only [Nodes.piecesKids, opensKids]
+        cases first <;> cases prevWs <;> simp [ht, opens, List.filterMap_cons]
+end
+
+end HtmlVerif.C03
+
+namespace HtmlVerif.C03
+open HtmlVerif
+
+/-- what one merge step writes: the two operands' own emissions separated by one space.
+    (`hsp`: a space is not a key of the attribute table.) -/
+theorem emit_mergeVal (cfg : Cfg) (hsp : htmlEscapeT cfg.attrTbl [' '] = [' ']) (a b : AttrVal) :
+    emitAttrVal cfg (mergeVal cfg a b) = emitAttrVal cfg a ++ ' ' :: emitAttrVal cfg b := by
+  cases a <;> cases b <;> simp [mergeVal, emitAttrVal]
+  rename_i s t
+  have : s ++ ' ' :: t = s ++ ([' '] ++ t) := by simp
+  rw [this, htmlEscapeT_append, htmlEscapeT_append, hsp]; simp
+
+/-- all values given for one name in one call, merged left to right as `update` does -/
+def mergeAll (cfg : Cfg) (v : AttrVal) (vs : List AttrVal) : AttrVal := vs.foldl (mergeVal cfg) v
+
+/-- several values for one name — any mix of plain and HTML() — are written as the operands' own emissions
+    joined by single spaces: each plain operand through the seven-character map, HTML() operands verbatim -/
+theorem C03_merge (cfg : Cfg) (hsp : htmlEscapeT cfg.attrTbl [' '] = [' ']) (v : AttrVal) (vs : List AttrVal) :
+    emitAttrVal cfg (mergeAll cfg v vs) = joinStr [' '] ((v :: vs).map (emitAttrVal cfg)) := by
+  induction vs generalizing v with
+  | nil => simp [mergeAll, joinStr]
+  | cons w ws ih =>
+    have := ih (mergeVal cfg v w)
+    simp only [mergeAll, List.foldl_cons] at this ⊢
+    rw [this]
+    cases ws with
+    | nil => simp [joinStr, emit_mergeVal cfg hsp]
+    | cons x xs => simp [joinStr, emit_mergeVal cfg hsp]
+
+/-- the side condition holds for the table in the source -/
+theorem C03_space_not_key : htmlEscapeT Generated.attrTbl [' '] = [' '] := by decide +kernel
+
+/-- … so for the real tables a merged value can never terminate the attribute either -/
+theorem C03_merge_inert (v : AttrVal) (vs : List AttrVal) (hplain : ∀ x ∈ v :: vs, ∃ s, x = .plain s) :
+    '"' ∉ emitAttrVal cfg (mergeAll cfg v vs) := by
+  rw [C03_merge cfg C03_space_not_key]
+  have key : ∀ (l : List AttrVal), (∀ x ∈ l, ∃ s, x = AttrVal.plain s) →
+      '"' ∉ joinStr [' '] (l.map (emitAttrVal cfg)) := by
+    intro l
+    induction l with
+    | nil => intro _; simp [joinStr]
+    | cons x xs ih =>
+      intro h
+      obtain ⟨s, rfl⟩ := h x (by simp)
+      have hx : '"' ∉ emitAttrVal cfg (.plain s) := C03_inert s '"' (by simp)
+      have hxs := ih (fun y hy => h y (by simp [hy]))
+      cases xs with
+      | nil => simpa [joinStr] using hx
+      | cons y ys =>
+        simp only [List.map_cons, joinStr] at hxs ⊢
+        simp only [List.mem_append, not_or]
+        exact ⟨⟨hx, by simp⟩, hxs⟩
+  exact key (v :: vs) hplain
+
+example : mergeAll cfg (.plain ['a', '"']) [.html ['x']] = .html ['a', '&', 'q', 'u', 'o', 't', ';', ' ', 'x'] := by
+  decide +kernel
+
+end HtmlVerif.C03
